@@ -78,21 +78,34 @@ def colValue (ps : List (JCol × JVal)) (ownFirst : Bool) (inst other : Nat) (fi
   | some p => p.2.get inst other
   | none => 0
 
+/-- an accessor statement `SELECT <sel.1> FROM t WHERE <sel.2.1> = <sel.2.2>` over a link table -/
+def relatedBy (sel : JCol × JCol × JVal) (db : DB) (t : Nat) (ownFirst : Bool) (owner : Nat) : List Nat :=
+  (db.links.filter fun l => l.table == t && l.col (sel.2.1.first ownFirst) == sel.2.2.get owner 0).map
+    (·.col (sel.1.first ownFirst))
+
+/-- an `INSERT` given as (column, value) pairs -/
+def addLinkBy (ps : List (JCol × JVal)) (db : DB) (t : Nat) (ownFirst : Bool) (owner other : Nat) : DB :=
+  { db with links := db.links ++ [⟨t, colValue ps ownFirst owner other true, colValue ps ownFirst owner other false⟩] }
+
+/-- a `DELETE` given as a conjunction of column = value -/
+def removeLinkBy (cs : List (JCol × JVal)) (db : DB) (t : Nat) (ownFirst : Bool) (owner other : Nat) : DB :=
+  { db with links := db.links.filter fun l =>
+      !(l.table == t && cs.all fun p => l.col (p.1.first ownFirst) == p.2.get owner other) }
+
 /-- `RelatedJoin` / `SQLRelatedJoin` of the side whose id is in column `ownFirst`: the **extracted**
     `_SO_intermediateJoin` statement as `performJoin` calls it -/
-def related (db : DB) (t : Nat) (ownFirst : Bool) (owner : Nat) : List Nat :=
-  (db.links.filter fun l => l.table == t && l.col (joinSelect.2.1.first ownFirst) == joinSelect.2.2.get owner 0).map
-    (·.col (joinSelect.1.first ownFirst))
+def related : DB → Nat → Bool → Nat → List Nat := relatedBy joinSelect
 
 /-- `add`: the **extracted** `_SO_intermediateInsert` statement as `SORelatedJoin.add` calls it -/
-def addLink (db : DB) (t : Nat) (ownFirst : Bool) (owner other : Nat) : DB :=
-  { db with links := db.links ++
-      [⟨t, colValue addPairs ownFirst owner other true, colValue addPairs ownFirst owner other false⟩] }
+def addLink : DB → Nat → Bool → Nat → Nat → DB := addLinkBy addPairs
 
 /-- `remove`: the **extracted** `_SO_intermediateDelete` statement as `SORelatedJoin.remove` calls it -/
-def removeLink (db : DB) (t : Nat) (ownFirst : Bool) (owner other : Nat) : DB :=
-  { db with links := db.links.filter fun l =>
-      !(l.table == t && removeConds.all fun p => l.col (p.1.first ownFirst) == p.2.get owner other) }
+def removeLink : DB → Nat → Bool → Nat → Nat → DB := removeLinkBy removeConds
+
+/-- new-style `ManyToMany`: the **extracted** query of `SOManyToMany.__get__` and the wrapper's `add` / `remove` -/
+def manyToMany : DB → Nat → Bool → Nat → List Nat := relatedBy Extracted.Graph.m2mSelect
+def m2mAdd : DB → Nat → Bool → Nat → Nat → DB := addLinkBy Extracted.Graph.m2mAddPairs
+def m2mRemove : DB → Nat → Bool → Nat → Nat → DB := removeLinkBy Extracted.Graph.m2mRemoveConds
 
 /-- the list-flavoured accessors with the join's `orderBy` applied (`_applyOrderBy`) -/
 def multipleJoin (val : Nat → Nat → Option Int) (db : DB) (k f : Nat) (ks : List SortKey) (owner : Nat) : List Nat :=
